@@ -218,7 +218,21 @@ class ParseContext(ParserEngine):
 
     @contextmanager
     def group(self) -> Any:
-        yield
+        # NOTE: the group is ONE value for an enclosing name (its CST is spliced by the merge);
+        #   it is not a cut scope, so the flag is handed to the enclosing frame
+        self.states.push()
+        try:
+            yield
+        except FailedParse:
+            cutseen = self.state.cutseen
+            self.states.undo()
+            if cutseen:
+                self.state.cutseen = True
+            raise
+        cutseen = self.state.cutseen
+        self.states.merge()
+        if cutseen:
+            self.state.cutseen = True
 
     _group = group
 
